@@ -17,7 +17,7 @@ ASSUMPTIONS = [
     "case variants are exercised through the stream entry points (HashStreamFile, get_hash_stream, fobj_md5, file_md5)",
 ]
 MONITORS = "digest / passthrough bytes / byte count compared with hashlib on every evaluation"
-REQUIRED_COUNTERS = ["legacy_stream_counts_checked", "control_heavy_ascii_contents", "long_first_line_texts", "hash_file_over_index_filesystem", "dos2unix_case_variant_checks", "midway_digest_peeks", "streams_with_transient_read_failures", "transient_read_failures_retried", "interleaved_stream_pairs", "short_read_streams", "stream_checks", "fobj_md5_checks", "hash_file_checks", "dos2unix_variant_checks", "memfs_checks"]
+REQUIRED_COUNTERS = ["file_md5_with_a_used_progress_callback", "legacy_stream_counts_checked", "control_heavy_ascii_contents", "long_first_line_texts", "hash_file_over_index_filesystem", "dos2unix_case_variant_checks", "midway_digest_peeks", "streams_with_transient_read_failures", "transient_read_failures_retried", "interleaved_stream_pairs", "short_read_streams", "stream_checks", "fobj_md5_checks", "hash_file_checks", "dos2unix_variant_checks", "memfs_checks"]
 
 PLAIN = ["md5", "sha1", "sha256", "sha512", "blake3", "sha224", "sha384", "md5-sha1", "sha3_256", "blake2b", "sha512_256"]
 VARIANTS = ["MD5", "Md5", "SHA256", "Sha256", "BLAKE3", "Blake3", "SHA1", "sHa512", "MD5-SHA1"]
@@ -248,7 +248,21 @@ def run_shard(ctx):
                             f.write(data)
                         fs = lfs
                     if entry == "file_md5":
-                        got = file_md5(path, fs, name=name)
+                        fkw = {}
+                        if rng.random() < 0.4:
+                            # the caller follows the hashing through a progress callback of its own: a fresh one, or one that has
+                            # already been through other files (its counters are not at zero)
+                            from fsspec.callbacks import Callback as _CB
+
+                            cb_ = _CB()
+                            if rng.random() < 0.6:
+                                cb_.set_size(rng.randrange(0, 5000))
+                                cb_.relative_update(rng.randrange(1, 5000))
+                                res.count("file_md5_with_a_used_progress_callback")
+                            fkw = {"callback": cb_}
+                            if rng.random() < 0.3:
+                                fkw["size"] = len(data)
+                        got = file_md5(path, fs, name=name, **fkw)
                         res.count("fobj_md5_checks")
                         if got != ref:
                             bad("file_md5-digest", f"file_md5({name}) != reference", case, got=got, ref=ref, **sample)
